@@ -523,7 +523,7 @@ impl<'u> Ctx<'u> {
         // ---- structure (needed by both binaries; only reported by the C12 one)
         let c12 = self.c12;
         let structural = |ctx: &Ctx, what: &str, got: &dyn std::fmt::Debug, want: &dyn std::fmt::Debug| -> Option<()> {
-            if c12 { ctx.bad(what, sc, upto, &(got, "message", show(msg)), want) } else { None }
+            if c12 { ctx.bad(&format!("[C02] {what}"), sc, upto, &(got, "message", show(msg)), want) } else { None }   // structure clauses are also C02 clauses
         };
         let mut starts: Vec<usize> = Vec::new();      // start offset of each record
         let mut decoded: Vec<RefRr> = Vec::new();
